@@ -112,6 +112,9 @@ func refTruthy(v any) bool {
 
 // refEqual is deep, type-strict equality; numbers by value.
 func refEqual(x, y any) bool {
+	if vrtSameObject(x, y) {
+		return true // the very same array / object / undecided value
+	}
 	switch a := x.(type) {
 	case nil:
 		return y == nil
